@@ -25,6 +25,11 @@ static const uint8_t PROFILE[12][8] = {
 static const uint8_t TPROFILE[6][5] = { {0, 0, 0, 0, 0}, {1, 0, 0, 0, 0}, {1, 1, 1, 1, 1}, {2, 2, 0, 1, 2}, {2, 1, 1, 0, 0}, {1, 2, 1, 1, 2} };
 static const uint8_t UIDCLASS[3] = {0xDA, 0x45, 0x12};   /* root: interface + track output + booster; accessory node; booster + track output */
 static uint8_t val3(int profile, int salt) { return profile == 0 ? (uint8_t) (salt & 1) : profile == 1 ? (uint8_t) (0x40 + salt) : (uint8_t) (255 - salt); }
+/* naming: value profile 1 uses PREFIX-RELATED ids — the k-th id of a kind is the first one followed by k zeros ("pb0_", "pb0_0",
+ * "pb0_00"; boards "b", "b0", "b00"; aspects "asp", "asp0", ...), so that every earlier id is a proper prefix of the later ones
+ * (look-ups that compare only a prefix or only up to the shorter length confuse them); the other profiles number them */
+static int g_prefix_ids;
+static void nm(char *out, size_t n, const char *base, int k) { if (!g_prefix_ids) { snprintf(out, n, "%s%d", base, k); return; } size_t o = (size_t) snprintf(out, n, "%s", base); for (int i = 0; i < k && o + 1 < n; i++) out[o++] = '0'; out[o] = 0; }
 static long valid_count(void) { return (12L + 144 + 144) * 3 * 3 * 6; }
 static void gen_valid(long idx, cm_model_t *m) {
 	memset(m, 0, sizeof *m);
@@ -32,33 +37,33 @@ static void gen_valid(long idx, cm_model_t *m) {
 	int nb, prof[3] = {0, 0, 0};
 	if (idx < 12) { nb = 1; prof[0] = (int) idx; } else if (idx < 156) { idx -= 12; nb = 2; prof[0] = (int) (idx % 12); prof[1] = (int) (idx / 12); }
 	else { idx -= 156; nb = 3; prof[0] = (int) (idx % 12); prof[1] = (int) (idx / 12); prof[2] = (int) ((idx * 7 + 3) % 12); }
-	m->nb = nb; int dccn = 0, uniq = 0;
+	m->nb = nb; int dccn = 0, uniq = 0; g_prefix_ids = vp == 1; char base[24];
 	for (int b = 0; b < nb; b++) {
-		cm_board_t *B = &m->b[b]; snprintf(B->id, sizeof B->id, "b%d%s", b, vp == 2 ? "_long_board_name" : "");
+		cm_board_t *B = &m->b[b]; if (g_prefix_ids) nm(B->id, sizeof B->id, "b", b); else snprintf(B->id, sizeof B->id, "b%d%s", b, vp == 2 ? "_long_board_name" : "");
 		B->uid[0] = UIDCLASS[b]; B->uid[1] = 0; B->uid[2] = 0x0D; B->uid[3] = 0x60; B->uid[4] = (uint8_t) b; B->uid[5] = val3(vp, b); B->uid[6] = (uint8_t) (0xE0 + b);
 		B->present = 1; B->parent = -1; B->local = (uint8_t) b; B->in_track = 1;
 		const uint8_t *P = PROFILE[prof[b]];
 		B->nfeatures = P[7]; for (int k = 0; k < B->nfeatures; k++) B->features[k] = (cm_feature_t) { (uint8_t) (k == 0 ? val3(vp, 5) : val3(vp, 6) ^ 0x10), val3(vp, k) };
-		B->npb = P[0]; for (int k = 0; k < B->npb; k++) { cm_bacc_t *a = &B->pb[k]; snprintf(a->id, 24, "pb%d_%d", b, k); a->number = (uint8_t) ((val3(vp, 0) ^ k) & 0x7F); a->naspects = naspects;
-			for (int q = 0; q < naspects; q++) { snprintf(a->aspects[q].id, 24, "asp%d", q); a->aspects[q].value = (uint8_t) (val3(vp, 3) ^ (q * 3)); } if ((k + tp) & 1) snprintf(a->initial, 24, "asp%d", naspects - 1); }
-		B->nsb = P[2]; for (int k = 0; k < B->nsb; k++) { cm_bacc_t *a = &B->sb[k]; snprintf(a->id, 24, "sb%d_%d", b, k); a->number = (uint8_t) ((val3(vp, 1) ^ k ^ 0x20) & 0x7F); a->naspects = naspects;
-			for (int q = 0; q < naspects; q++) { snprintf(a->aspects[q].id, 24, "s%d", q); a->aspects[q].value = (uint8_t) (q * 5 + (vp == 2 ? 240 : 0)); } if (!((k + tp) & 1)) snprintf(a->initial, 24, "s0"); }
+		B->npb = P[0]; for (int k = 0; k < B->npb; k++) { cm_bacc_t *a = &B->pb[k]; snprintf(base, sizeof base, "pb%d_", b); nm(a->id, 24, base, k); a->number = (uint8_t) ((val3(vp, 0) ^ k) & 0x7F); a->naspects = naspects;
+			for (int q = 0; q < naspects; q++) { nm(a->aspects[q].id, 24, "asp", q); a->aspects[q].value = (uint8_t) (val3(vp, 3) ^ (q * 3)); } if ((k + tp) & 1) nm(a->initial, 24, "asp", naspects - 1); }
+		B->nsb = P[2]; for (int k = 0; k < B->nsb; k++) { cm_bacc_t *a = &B->sb[k]; snprintf(base, sizeof base, "sb%d_", b); nm(a->id, 24, base, k); a->number = (uint8_t) ((val3(vp, 1) ^ k ^ 0x20) & 0x7F); a->naspects = naspects;
+			for (int q = 0; q < naspects; q++) { nm(a->aspects[q].id, 24, "s", q); a->aspects[q].value = (uint8_t) (q * 5 + (vp == 2 ? 240 : 0)); } if (!((k + tp) & 1)) nm(a->initial, 24, "s", 0); }
 		for (int dcc = 0; dcc < 2; dcc++) { int cnt = dcc ? P[3] : P[1]; if (dcc) B->nsd = cnt; else B->npd = cnt;
-			for (int k = 0; k < cnt; k++) { cm_dacc_t *a = dcc ? &B->sd[k] : &B->pd[k]; snprintf(a->id, 24, "%s%d_%d", dcc ? "sd" : "pd", b, k);
+			for (int k = 0; k < cnt; k++) { cm_dacc_t *a = dcc ? &B->sd[k] : &B->pd[k]; snprintf(base, sizeof base, "%s%d_", dcc ? "sd" : "pd", b); nm(a->id, 24, base, k);
 				dccn++; a->addrl = (uint8_t) (vp == 2 ? 255 - dccn : dccn); a->addrh = (uint8_t) (vp == 0 ? 0 : vp == 1 ? 0x11 : 0x27); a->extended = (uint8_t) (k & 1); a->naspects = naspects;
-				for (int q = 0; q < naspects; q++) { snprintf(a->aspects[q].id, 24, "d%d", q); a->aspects[q].nports = 1 + (q & 1); a->aspects[q].ports[0] = (cm_portval_t) { (uint8_t) (vp == 2 ? 31 - q : q), (uint8_t) (q & 1) }; a->aspects[q].ports[1] = (cm_portval_t) { (uint8_t) (q + 1), 1 }; }
-				if ((k + dcc + tp) & 1) snprintf(a->initial, 24, "d0"); } }
-		B->nper = P[4]; for (int k = 0; k < B->nper; k++) { cm_periph_t *a = &B->per[k]; snprintf(a->id, 24, "pe%d_%d", b, k); a->number = (uint8_t) k; a->port0 = (uint8_t) (val3(vp, 2) ^ k); a->port1 = (uint8_t) (vp == 2 ? 0xFF : vp); a->naspects = naspects;
-			for (int q = 0; q < naspects; q++) { snprintf(a->aspects[q].id, 24, "on%d", q); a->aspects[q].value = (uint8_t) q; } if (k == 0) snprintf(a->initial, 24, "on0"); }
-		B->nseg = P[5]; for (int k = 0; k < B->nseg; k++) { snprintf(B->seg[k].id, 24, "seg%d_%d", b, k); B->seg[k].addr = (uint8_t) (val3(vp, 4) ^ k); snprintf(B->seg[k].length, 16, "%d.5cm", 1 + k + uniq); }
-		B->nrev = P[6]; for (int k = 0; k < B->nrev; k++) { snprintf(B->rev[k].id, 24, "rev%d_%d", b, k); snprintf(B->rev[k].cv, 12, "%d", 30051 + k + b * 10); }
+				for (int q = 0; q < naspects; q++) { nm(a->aspects[q].id, 24, "d", q); a->aspects[q].nports = 1 + (q & 1); a->aspects[q].ports[0] = (cm_portval_t) { (uint8_t) (vp == 2 ? 31 - q : q), (uint8_t) (q & 1) }; a->aspects[q].ports[1] = (cm_portval_t) { (uint8_t) (q + 1), 1 }; }
+				if ((k + dcc + tp) & 1) nm(a->initial, 24, "d", 0); } }
+		B->nper = P[4]; for (int k = 0; k < B->nper; k++) { cm_periph_t *a = &B->per[k]; snprintf(base, sizeof base, "pe%d_", b); nm(a->id, 24, base, k); a->number = (uint8_t) k; a->port0 = (uint8_t) (val3(vp, 2) ^ k); a->port1 = (uint8_t) (vp == 2 ? 0xFF : vp); a->naspects = naspects;
+			for (int q = 0; q < naspects; q++) { nm(a->aspects[q].id, 24, "on", q); a->aspects[q].value = (uint8_t) q; } if (k == 0) nm(a->initial, 24, "on", 0); }
+		B->nseg = P[5]; for (int k = 0; k < B->nseg; k++) { snprintf(base, sizeof base, "seg%d_", b); nm(B->seg[k].id, 24, base, k); B->seg[k].addr = (uint8_t) (val3(vp, 4) ^ k); snprintf(B->seg[k].length, 16, "%d.5cm", 1 + k + uniq); }
+		B->nrev = P[6]; for (int k = 0; k < B->nrev; k++) { snprintf(base, sizeof base, "rev%d_", b); nm(B->rev[k].id, 24, base, k); snprintf(B->rev[k].cv, 12, "%d", 30051 + k + b * 10); }
 		uniq++;
 	}
 	const uint8_t *T = TPROFILE[tp]; static const int STEPS[3] = {14, 28, 126};
 	m->nt = T[0];
-	for (int t = 0; t < m->nt; t++) { cm_train_t *tr = &m->t[t]; snprintf(tr->id, 24, "train%d", t); tr->addrl = (uint8_t) (0x70 + t); tr->addrh = (uint8_t) (vp == 2 ? 0x27 : 0x01); tr->steps = STEPS[(T[4] + t) % 3];
+	for (int t = 0; t < m->nt; t++) { cm_train_t *tr = &m->t[t]; nm(tr->id, 24, "train", t); tr->addrl = (uint8_t) (0x70 + t); tr->addrh = (uint8_t) (vp == 2 ? 0x27 : 0x01); tr->steps = STEPS[(T[4] + t) % 3];
 		if (T[2]) { tr->ncal = 9; for (int k = 0; k < 9; k++) tr->cal[k] = vp == 2 ? 118 + k : 1 + k * 10; }
-		tr->nper = T[1]; for (int k = 0; k < tr->nper; k++) { snprintf(tr->per[k].id, 24, "f%d", k); tr->per[k].bit = (uint8_t) (vp == 0 ? k : vp == 1 ? 8 + k * 7 : 31 - k); tr->per[k].has_initial = T[3] && k == 0; tr->per[k].initial = 1; } }
+		tr->nper = T[1]; for (int k = 0; k < tr->nper; k++) { nm(tr->per[k].id, 24, "f", k); tr->per[k].bit = (uint8_t) (vp == 0 ? k : vp == 1 ? 8 + k * 7 : 31 - k); tr->per[k].has_initial = T[3] && k == 0; tr->per[k].initial = 1; } }
 }
 static void cmp_list(const char *what, t_bidib_id_list_query q, const char *exp[], int nexp) {
 	int ok = (int) q.length == nexp; for (int i = 0; ok && i < nexp; i++) if (strcmp(q.ids[i], exp[i])) ok = 0;
